@@ -41,12 +41,13 @@ const prop = "C20"
 var outerT *testing.T
 
 func TestMain(m *testing.M) {
-	core.DeclareFaults("rng-short-read", "maybe-read-byte", "id-collision-scripted")
+	core.DeclareFaults("rng-short-read", "maybe-read-byte", "id-collision-scripted", "id-collision-deleted-scripted")
 	core.DeclareProbes("redraw-on-collision", "scripted-fresh-id", "raw-key-id-draw", "same-message-signed-twice", "second-primitive-same-key",
 		"second-handle-same-key", "subtle-constructor", "writer-repeat-on-primitive", "interleaved-keys", "full-sweep", "edge-position",
 		"field-delivered-by-short-reads", "ecdh-recompute-x25519", "ecdh-recompute-nist", "p521-masked-byte-flipped", "mlkem-consecutive",
 		"xwing-both-halves", "ecies-dem-iv", "ecies-compressed-point", "pss-auto-salt", "composite-two-draws", "keygen-symmetric-copy",
-		"keygen-asymmetric-copy", "keygen-asymmetric-fn", "keygen-nonrandomized-type", "pooled-key", "jwt-signature")
+		"keygen-asymmetric-copy", "keygen-asymmetric-fn", "keygen-nonrandomized-type", "pooled-key", "jwt-signature",
+		"manager-delete", "manager-setprimary", "manager-disable-enable", "add-after-delete", "mldsa-prehash-signer", "output-verified")
 	if core.Thorough() {
 		core.DeclareProbes("rsa-primes-located-in-stream", "slhdsa-keygen-seeds-copied", "cost2-produce")
 	}
@@ -220,8 +221,12 @@ type world struct {
 
 	keys    []*keyState
 	mgr     *keyset.Manager
-	used    map[uint32]bool
-	mgrIDs  []uint32
+	used    map[uint32]bool // every ID the persistent manager has ever handed out (deleted ones stay in)
+	mgrIDs  []uint32        // the same, in order of issue
+	mgrLive []uint32        // IDs currently in the keyset
+	mgrGone map[uint32]bool // handed out earlier, deleted since
+	mgrOff  map[uint32]bool // currently disabled
+	mgrPrim uint32
 	keyMat  map[string]bool // secret material of every key generated in this run
 	lastEnd uint64
 	lastKey int
@@ -667,6 +672,16 @@ func (w *world) addKey() {
 		t.Fatalf("harness: factory refuses %s: %v", e.Name, err)
 	}
 	ks.prims = append(ks.prims, p)
+	// every other producing path the handle offers for this key type
+	var alt *prim
+	var ok bool
+	w.bracket(ks.loc+".prehash-factory", func() { alt, ok, err = prehashPrim(ks.k, h) })
+	if ok {
+		if err != nil {
+			t.Fatalf("harness: signprehash refuses %s: %v", e.Name, err)
+		}
+		ks.prims = append(ks.prims, alt)
+	}
 	w.keys = append(w.keys, ks)
 }
 
@@ -678,8 +693,19 @@ func (w *world) mgrAdd() {
 	e := cheapSym[rapid.IntRange(0, len(cheapSym)-1).Draw(t, "mgrEntry")]
 	var vals []uint32
 	if len(w.mgrIDs) > 0 {
+		// IDs this manager handed out earlier: live ones and ones deleted since
+		var gone []uint32
+		for _, id := range w.mgrIDs {
+			if w.mgrGone[id] {
+				gone = append(gone, id)
+			}
+		}
 		n := rapid.IntRange(0, 3).Draw(t, "collisions")
 		for i := 0; i < n; i++ {
+			if len(gone) > 0 && rapid.SampledFrom([]string{"deleted", "deleted", "any"}).Draw(t, "collideKind") == "deleted" {
+				vals = append(vals, gone[rapid.IntRange(0, len(gone)-1).Draw(t, "collideWithDeleted")])
+				continue
+			}
 			vals = append(vals, w.mgrIDs[rapid.IntRange(0, len(w.mgrIDs)-1).Draw(t, "collideWith")])
 		}
 	}
@@ -704,13 +730,16 @@ func (w *world) mgrAdd() {
 	}
 	// what a manager that re-draws until the ID is unused must return
 	var exp uint32
-	ok, collisions, off := false, 0, 0
+	ok, collisions, goneCollisions, off := false, 0, 0, 0
 	for _, v := range vals {
 		if !w.used[v] {
 			exp, ok = v, true
 			break
 		}
 		collisions++
+		if w.mgrGone[v] {
+			goneCollisions++
+		}
 	}
 	for !ok && off+4 <= len(wn.data) {
 		v := binary.BigEndian.Uint32(wn.data[off : off+4])
@@ -722,6 +751,14 @@ func (w *world) mgrAdd() {
 	if collisions > 0 {
 		r.Fault("id-collision-scripted")
 		w.faults["collision"] = true
+	}
+	if goneCollisions > 0 {
+		r.Fault("id-collision-deleted-scripted")
+		w.faults["collision-deleted"] = true
+	}
+	if w.mgrGone[id] {
+		r.Violation("C20/keyid-reissued-after-delete", fmt.Sprintf("manager handed out key ID %08x again after the key carrying it was deleted (scripted draws %08x)", id, vals))
+		return
 	}
 	if w.used[id] {
 		r.Violation("C20/keyid-not-redrawn", fmt.Sprintf("manager handed out key ID %08x a second time (IDs in use: %d, scripted draws %08x)", id, len(w.used), vals))
@@ -740,12 +777,17 @@ func (w *world) mgrAdd() {
 	w.oracles["id"] = true
 	w.used[id] = true
 	w.mgrIDs = append(w.mgrIDs, id)
+	w.mgrLive = append(w.mgrLive, id)
+	if len(w.mgrGone) > 0 {
+		r.Probe("add-after-delete")
+	}
 	r.ObsI("manager id", int64(id))
 	// the key added under that ID is a copy of the bytes issued after the ID draws
 	if len(w.mgrIDs) == 1 {
 		if err := w.mgr.SetPrimary(id); err != nil {
 			t.Fatalf("harness: SetPrimary: %v", err)
 		}
+		w.mgrPrim = id
 	}
 	h, err := w.mgr.Handle()
 	if err != nil {
@@ -771,6 +813,73 @@ func (w *world) mgrAdd() {
 		}
 		w.keyMat[string(cat)] = true
 		w.oracles["keycopy"] = true
+	}
+}
+
+// mgrOp drives the other operations of the persistent manager; none of them
+// may make an ID it handed out available again.
+func (w *world) mgrOp(op string) {
+	t, r := w.t, w.r
+	var cand []uint32
+	for _, id := range w.mgrLive {
+		switch op {
+		case "mgrdelete", "mgrdisable":
+			if id != w.mgrPrim {
+				cand = append(cand, id)
+			}
+		case "mgrsetprimary":
+			if !w.mgrOff[id] {
+				cand = append(cand, id)
+			}
+		}
+	}
+	if len(cand) == 0 {
+		w.mgrAdd()
+		return
+	}
+	id := cand[rapid.IntRange(0, len(cand)-1).Draw(t, "mgrTarget")]
+	var err error
+	what := op
+	wn := w.bracket("keyset.Manager."+op, func() {
+		switch op {
+		case "mgrdelete":
+			err = w.mgr.Delete(id)
+		case "mgrsetprimary":
+			err = w.mgr.SetPrimary(id)
+		case "mgrdisable":
+			if w.mgrOff[id] {
+				what = "mgrenable"
+				err = w.mgr.Enable(id)
+			} else {
+				err = w.mgr.Disable(id)
+			}
+		}
+	})
+	r.Logf("manager %s(%08x) -> %s, consumed %d", what, id, describe(err), len(wn.data))
+	if err != nil {
+		t.Fatalf("harness: manager %s(%08x) refused: %v", what, id, err)
+	}
+	switch op {
+	case "mgrdelete":
+		for i, v := range w.mgrLive {
+			if v == id {
+				w.mgrLive = append(w.mgrLive[:i:i], w.mgrLive[i+1:]...)
+				break
+			}
+		}
+		w.mgrGone[id] = true
+		delete(w.mgrOff, id)
+		r.Probe("manager-delete")
+	case "mgrsetprimary":
+		w.mgrPrim = id
+		r.Probe("manager-setprimary")
+	case "mgrdisable":
+		if w.mgrOff[id] {
+			delete(w.mgrOff, id)
+		} else {
+			w.mgrOff[id] = true
+		}
+		r.Probe("manager-disable-enable")
 	}
 }
 
@@ -838,8 +947,8 @@ func (w *world) produce(ki int) {
 	msg := messages[mi]
 	aad := []byte("aad")
 	loc := ks.loc
-	if p.kind == "subtle" {
-		loc += "[subtle]"
+	if p.kind != "factory" {
+		loc += "[" + p.kind + "]"
 	}
 	var out []byte
 	var err error
@@ -856,6 +965,16 @@ func (w *world) produce(ki int) {
 	}
 	r.Obs("out", out)
 	orig := append([]byte(nil), out...)
+	if p.verify != nil {
+		if verr := p.verify(orig, msg); verr != nil {
+			r.Violation("C20/invalid-output:"+loc, fmt.Sprintf("%s: the ordinary verifier rejects the output: %v", ks.e.Name, verr))
+			return
+		}
+		r.Probe("output-verified")
+	}
+	if p.kind == "prehash" {
+		r.Probe("mldsa-prehash-signer")
+	}
 	T := len(wn.data)
 	short := func(field string, need int) bool {
 		if T < need {
@@ -1066,7 +1185,7 @@ func run(t *rapid.T) {
 	rand.Reader = sr
 	defer func() { rand.Reader = old }()
 
-	w := &world{r: r, t: t, g: g, sr: sr, mgr: keyset.NewManager(), used: map[uint32]bool{}, keyMat: map[string]bool{},
+	w := &world{r: r, t: t, g: g, sr: sr, mgr: keyset.NewManager(), used: map[uint32]bool{}, mgrGone: map[uint32]bool{}, mgrOff: map[uint32]bool{}, keyMat: map[string]bool{},
 		oracles: map[string]bool{}, faults: map[string]bool{}, lastKey: -1}
 	r.Logf("short reads: max %d", sr.max)
 
@@ -1079,7 +1198,8 @@ func run(t *rapid.T) {
 		maxCalls = 50
 	}
 	nCalls := rapid.IntRange(1, maxCalls).Draw(t, "nCalls")
-	ops := []string{"produce", "produce", "produce", "produce", "produce", "produce", "newprim", "newkey", "mgradd", "mgradd"}
+	ops := []string{"produce", "produce", "produce", "produce", "produce", "produce", "newprim", "newkey", "mgradd", "mgradd", "mgradd",
+		"mgrdelete", "mgrdelete", "mgrsetprimary", "mgrdisable"}
 	for i := 0; i < nCalls; i++ {
 		op := rapid.SampledFrom(ops).Draw(t, "op")
 		if len(w.keys) == 0 && (op == "produce" || op == "newprim") {
@@ -1094,6 +1214,8 @@ func run(t *rapid.T) {
 			w.genKey(drawEntry(t, &genList, "genEntry"))
 		case "mgradd":
 			w.mgrAdd()
+		case "mgrdelete", "mgrsetprimary", "mgrdisable":
+			w.mgrOp(op)
 		}
 	}
 	g.ClearScript()
